@@ -127,6 +127,21 @@ CLAIMED['C11'] = dict(
     technique='contract-based deductive verification: Python ast -> VC generator (loop invariant, anchored lemma, proof harness) -> z3; bounded native sweep vs a value model for the surround',
     design='3 C11')
 
+CLAIMED['C19'] = dict(
+    text='Unbounded proof over the real source of pytype_runner.get_imports_map and PytypeRunner.setup_build against a ghost build plan '
+         '(declared outputs, transitively declared dependencies of every statement, content of every imports file): the precondition of '
+         'the ghost model of write_build_statement IS the property -- every dependency a build step declares is the output of an earlier '
+         'step, and every entry of the step\'s imports map is the default stub or the output of a step it transitively declares as a '
+         'dependency (so no schedule that respects the declared edges reads a stub before it is produced), for every sequence of items in '
+         'dependency order incl. two-pass cycles. The order of the yielded items (yield_sorted_modules), the text written to build.ninja / '
+         '*.imports, path escaping and the exactly-one-check clause are covered only by a bounded sweep (real files parsed back).',
+    note='Trusted: engine/, z3, A-EQ (modules compared by value), A-IO (ghost records = text written), A-FRESH (distinct output / imports '
+         'file names), A-PATH (no output equals default.pyi), A-NINJA, A-GEN (generator consumed as a list), assumed contract of '
+         'yield_sorted_modules (dependency order; sampled natively). Unverified surround: deps_from_import_graph, escape_ninja_path, '
+         '_module_to_output_path, imports_map_loader, ninja.',
+    technique='contract-based deductive verification: Python ast -> VC generator (loop invariant over ghost plan state, property as callee precondition) -> z3; bounded native parse-back sweep',
+    design='3 C19')
+
 NOT_APPLICABLE = {
     'C01': 'whole abstract interpreter vs CPython execution: no function-level contract expresses over-approximation of execution (DESIGN 4)',
     'C02': 'decided by matcher.py (2000 lines) on live VM values; the inhabitant oracle quantifies over programs, not one call (DESIGN 4)',
